@@ -4,6 +4,7 @@ import NixModel.Pure.TreeShape
 import NixModel.Pure.TreeIds
 import NixModel.Pure.TreeIdsRef
 import NixModel.Pure.TreeIdsRel
+import NixModel.Pure.TreeIdsHist
 import NixModel.Generated.FindShape
 import NixModel.Generated.IdLookup
 open Lean Nix Nix.Tree Nix.Tree.Shape Nix.Tree.Ids Nix.Generated
@@ -264,26 +265,32 @@ def handleV (texts : Nat → String) (f : File) (j0 : Json) : File × Json :=
       | some _ => (f, ok Json.null)
   | _ => handle texts f j
 
-/-- the file and the id texts the caller supplied (`create_section(…, oid=…)`), by key -/
-structure St where
-  f : File := {}
-  given : List (Nat × String) := []
+/-- the file and the id texts the caller supplied (`create_section(…, oid=…)`), by key: `StT` of
+`Pure/TreeIdsHist.lean` -/
+abbrev St := StT
 
 /-- stand-in for a library-made id (`str(uuid4())`: lower case, hyphenated) -/
 def genText (k : Nat) : String :=
   let ds := Nat.toDigits 16 k
   "00000000-0000-4000-8000-" ++ String.ofList (List.replicate (12 - ds.length) '0' ++ ds)
 
-/-- `create_section(name, type[, oid])` under `p`; with an `oid`: what `Section.create_new` stores for it (as
-extracted), if anything -/
+/-- `create_section(name, type[, oid])` under `p`: one step of `stepT` (Pure/TreeIdsHist.lean) - with an `oid`, what
+`Section.create_new` stores for it (as extracted), if anything -/
 def createS (s : St) (p n t : Json) (oid : Option String) : St × Json :=
-  let texts := textsOf s.given genText
-  let (f', r) := handleV texts s.f (Json.arr #[Json.str "create_section", p, n, t])
-  if f'.next == s.f.next + 1 then
-    match oid.bind (storedId IdLookup.shape) with
-    | some tx => ({ f := f', given := (s.f.next, tx) :: s.given }, r)
-    | none => ({ s with f := f' }, r)
-  else ({ s with f := f' }, r)
+  match n, t with
+  | Json.str n, Json.str t =>
+    if !(validName n && !t.isEmpty) then (s, bad "C13: invalid name/type") else
+    match (if isNull p then some none else (jNat? p).map some) with
+    | none => (s, bad "C13: parent")
+    | some parent =>
+      let op : OpT := match oid with
+        | some o => .createSectionOid parent n t o
+        | none => .plain (.createSection parent n t)
+      match stepT IdLookup.shape s op with
+      | .ok (s', some k) => (s', ok (jKey k))
+      | .ok (s', none) => (s', ok Json.null)
+      | .error e => (s, err e)
+  | _, _ => (s, bad "C13: create_section")
 
 /-- a tree `[name, type, oid | null, [subtrees]]` built elsewhere and copied in with its ids kept
 (`dest.copy_section(top, children=True, keep_id=True)` from another file): the same sections, the same id texts,
